@@ -680,27 +680,23 @@ func (ab *dsAddrBook) setAddrs(p peer.ID, addrs []ma.Multiaddr, ttl time.Duratio
 	return pr.flush(ab.ds)
 }
 
-// deletes addresses in place, avoiding copies until we encounter the first deletion.
-// does not preserve order, but entries are re-sorted before flushing to disk anyway.
+// deletes addresses in place, keeping the survivors in their original order.
 func deleteInPlace(s []*pb.AddrBookRecord_AddrEntry, addrs []ma.Multiaddr) []*pb.AddrBookRecord_AddrEntry {
 	if s == nil || len(addrs) == 0 {
 		return s
 	}
-	survived := len(s)
-Outer:
-	for i, addr := range s {
+	survived := 0
+	for _, entry := range s {
+		deleted := false
 		for _, del := range addrs {
-			if !bytes.Equal(del.Bytes(), addr.Addr) {
-				continue
+			if bytes.Equal(del.Bytes(), entry.Addr) {
+				deleted = true
+				break
 			}
-			survived--
-			// if there are no survivors, bail out
-			if survived == 0 {
-				break Outer
-			}
-			s[i] = s[survived]
-			// we've already dealt with s[i], move to the next
-			continue Outer
+		}
+		if !deleted {
+			s[survived] = entry
+			survived++
 		}
 	}
 	return s[:survived]
